@@ -3,7 +3,7 @@ of the expression visitor, as plain Python over the DSL's constructors.  PARSED 
 
 from operator import attrgetter
 
-from y0.dsl import Distribution, Fraction, Probability, Product, QFactor, Sum, ensure_ordering
+from y0.dsl import Distribution, Fraction, Probability, Product, QFactor, Sum, _get_free_variables, ensure_ordering
 
 
 # ---- chain rule: P(c_1..c_n | pa) = Π_i P(c_i | c_{i+1}..c_n, pa), children taken in the given order or in the requested ordering
@@ -82,3 +82,16 @@ def visit_product(self, expression):
 
 def visit_fraction(self, expression):
     return Fraction(numerator=self.apply_expression(expression.numerator), denominator=self.apply_expression(expression.denominator))
+
+
+def free_variables(expression):
+    # the variables an expression is a function of: a sum binds its ranges; products and fractions have the free variables of their parts;
+    # a leaf has the variables it mentions
+    if isinstance(expression, Sum):
+        return _get_free_variables(expression.expression) - set(expression.ranges)
+    elif isinstance(expression, Product):
+        return {v for e in expression.expressions for v in _get_free_variables(e)}
+    elif isinstance(expression, Fraction):
+        return _get_free_variables(expression.numerator) | _get_free_variables(expression.denominator)
+    else:
+        return expression.get_variables()
